@@ -26,6 +26,7 @@ type resultSet struct {
 	types   []string
 	rows    [][]driver.Value
 	errAt   int // Next fails before delivering row errAt (-1: never)
+	errKind int // which error value Next fails with
 	scanBad bool
 }
 
@@ -183,6 +184,14 @@ func (r *recRows) Columns() []string { return r.rs.names }
 func (r *recRows) Close() error      { return nil }
 func (r *recRows) Next(dest []driver.Value) error {
 	if r.pos == r.rs.errAt {
+		switch r.rs.errKind {
+		case 1:
+			return fmt.Errorf("read tcp 10.0.0.1:5432: %w", io.EOF) // a dropped connection, not the end of the result set
+		case 2:
+			return io.ErrUnexpectedEOF
+		case 3:
+			return fmt.Errorf("driver: %w", context.Canceled)
+		}
 		return errInjected
 	}
 	if r.pos >= len(r.rs.rows) {
